@@ -243,6 +243,21 @@ CHECKS["C20"] = {
     "note": "Trusted: Python string formatting of finite floats; the stated input kinds.",
 }
 
+CHECKS["C13"] = {
+    "engine": "sa",
+    "technique": "definite-assignment (must) dataflow over the joint parser, guard dominance, ordered composition pattern, path counting of the chain-walk bookkeeping",
+    "design_ref": "DESIGN.md section 4 C13",
+    "text": ("Decides for all URDF files the structural clauses of the loader: every joint leaves the parser with a non-None axis and "
+             "origin on every path (absent optional children => URDF defaults), absent xyz/rpy attributes become zeros before "
+             "use; the joint origin is composed as translate(xyz) Rz(yaw) Ry(pitch) Rx(roll) with each value in its slot; every "
+             "moving joint contributes exactly one name, one lower and one upper limit (its own), one column of each table at "
+             "the running index which then advances by one, while links/fixed joints contribute none and fixed joints are folded "
+             "into the running pose; screws are [axis; point x axis] with the axis rotated by the accumulated pose; the arm is "
+             "built at the identity base with the last accumulated pose as tool home. FK equality with the file's semantics to "
+             "1e-6 is numerical and not decided."),
+    "note": "Trusted: ElementTree parsing; tm composition (C04); the chain is strictly serial (as the property states).",
+}
+
 _PENDING = "rule module not yet built in this round (see DESIGN.md section 4 for the planned static rules)"
 for _i in range(1, 21):
     _p = "C%02d" % _i
